@@ -13,9 +13,11 @@ EXTENDS CtrlSeq, TLC, Json, IOUtils
 
 TextTable == JsonDeserialize(IOEnv.VERIF_TEXTS)          \* Seq(Seq(Nat))
 TextIds   == DOMAIN TextTable
-Sem       == [i \in TextIds |-> SemOf(TextTable[i])]     \* evaluated once by TLC
-Touch     == [i \in TextIds |-> EffTouch(Sem[i].effs)]
-ParamOnly == [i \in TextIds |-> \A k \in DOMAIN TextTable[i] : IsParamByte(TextTable[i][k])]
+\* explicit tables, computed once: [i \in S |-> e] alone is a closure that TLC re-evaluates on every application, and the
+\* definitions below are looked up for every setting of every character; s \o << >> is a tuple of values
+Sem       == [i \in TextIds |-> SemOf(TextTable[i])] \o << >>
+Touch     == [i \in TextIds |-> EffTouch(Sem[i].effs)] \o << >>
+ParamOnly == [i \in TextIds |-> \A k \in DOMAIN TextTable[i] : IsParamByte(TextTable[i][k])] \o << >>
 
 \* kinds: "S" AnsiString, "A" AnsiStr, "P" plain str, "N" not (yet) allocated
 Absent == [k |-> "N", t |-> << >>, s |-> << >>, p |-> << >>, q |-> << >>, b |-> 0, f |-> << >>]
